@@ -39,8 +39,8 @@ void h_K_find_basic_vs_nums_in_subset(void)
   g_view = nondet_int(); g_seg = nondet_int(); g_isbasic = nondet_bool(); out_n = 0; out_ghost = 0;
   K_find_basic_vs_nums_in_subset(p, nondet_int(), nondet_int(), nondet_int(), nondet_int());
 }
-void h_K_randomly_permute_subset_order(void) { struct IR* s; struct IVEC* o; g_a = nondet_int(); g_val = nondet_int(); K_randomly_permute_subset_order(s, o); }
-void h_K_get_subset_num(void) { struct IR* s; g_a = nondet_int(); g_b = nondet_int(); g_val = nondet_int(); K_get_subset_num(s); }
+void h_K_randomly_permute_subset_order(void) { struct IR* s; struct IVEC* o; g_a = nondet_int(); g_b = nondet_int(); g_val = nondet_int(); K_randomly_permute_subset_order(s, o); }
+void h_K_get_subset_num(void) { struct IR* s; g_a = nondet_int(); g_b = nondet_int(); g_val = nondet_int(); g_regen = 0; K_get_subset_num(s); }
 
 /* find_basic is idempotent: its result is basic (a second application changes nothing and says so) */
 void h_lemma_idempotent(void)
@@ -103,11 +103,33 @@ void h_lemma_schedule(void)
   __CPROVER_assume(IR_VALID(&a) && IR_VALID(&b));
   /* same full iteration, different sub-iterations */
   __CPROVER_assume((a.subiteration_num - 1) / a.num_subsets == (b.subiteration_num - 1) / b.num_subsets && a.subiteration_num != b.subiteration_num);
-  g_a = (a.subiteration_num - 1) % a.num_subsets;
+  g_a = (a.subiteration_num - 1) % a.num_subsets; g_regen = 0;
   int sa = K_get_subset_num(&a);
-  g_a = (b.subiteration_num - 1) % b.num_subsets;
+  g_a = (b.subiteration_num - 1) % b.num_subsets; g_regen = 0;
   int sb = K_get_subset_num(&b);
   __CPROVER_assert(sa != sb, "two different sub-iterations of one full iteration use different subsets");
+}
+
+/* randomised schedule (over the contract of get_subset_num): two different sub-iterations of one full iteration use different subsets */
+void h_lemma_schedule_random(void)
+{
+  struct IR a;
+  a.num_subsets = nondet_int(); a.start_subset_num = nondet_int(); a.randomise_subset_order = 1;
+  a._current_subset_array.n = 0; /* no order yet (start of a run; a run resumed inside a full iteration generates one at its first call) */
+  const int k1 = nondet_int(), k2 = nondet_int();
+  a.subiteration_num = k1;
+  __CPROVER_assume(IR_VALID(&a) && k2 > k1 && k2 < (1 << 30) && (k1 - 1) / a.num_subsets == (k2 - 1) / a.num_subsets);
+  g_val = nondet_int(); /* prophecy: the subset the first call will return (the code does not read ghosts) */
+  g_a = (k1 - 1) % a.num_subsets; g_b = (k2 - 1) % a.num_subsets; g_regen = 0;
+  const int s1 = K_get_subset_num(&a);
+  __CPROVER_assume(s1 == g_val);
+  /* sub-iterations between k1 and k2 keep the order (the same contract: not the first of a full iteration, order present) */
+  a.subiteration_num = k2; g_a = (k2 - 1) % a.num_subsets; g_regen = 0;
+  const int s2 = K_get_subset_num(&a);
+  __CPROVER_assert(s1 != s2, "randomised order: two different sub-iterations of one full iteration use different subsets");
+#ifdef LEMMA_CANARY
+  __CPROVER_assert(0, "vacuity canary");
+#endif
 }
 
 void h_K_balanced_count(void)
